@@ -272,6 +272,13 @@ impl<'a, 'tcx> BodyCx<'a, 'tcx> {
                         v.push(("cdef", J::s(&path_of(self.tcx, uv.def))));
                     }
                 }
+                if let Const::Val(mir::ConstValue::Scalar(mir::interpret::Scalar::Ptr(ptr, _)), _) = c.const_ {
+                    if let Some(mir::interpret::GlobalAlloc::Static(sd)) =
+                        self.tcx.try_get_global_alloc(ptr.provenance.alloc_id())
+                    {
+                        v.push(("static", J::s(&path_of(self.tcx, sd))));
+                    }
+                }
                 if ty.is_integral() || ty.is_bool() || ty.is_char() {
                     if let Some(si) = c.const_.try_eval_scalar_int(self.tcx, self.env) {
                         let sz = si.size();
